@@ -164,6 +164,9 @@ impl EventLoop {
             // Last session might contain packets which aren't acked. If it's a new session, clear the pending packets.
             if !connack.session_present {
                 self.pending.clear();
+                // nothing is outstanding any more: the retransmission order of the new
+                // session starts behind the last packet id handed out
+                self.state.last_puback = self.state.last_pkid;
             }
             self.network = Some(network);
 
